@@ -8,9 +8,11 @@ import (
 	"runtime"
 	"sort"
 	"strconv"
+	"strings"
 	"sync"
 
 	"github.com/couchbase/nitro"
+	"github.com/couchbase/nitro/skiplist"
 )
 
 // C05 with delta interleaving on a moving store: StoreToDisk (one visitor goroutine) is paused after
@@ -19,6 +21,13 @@ import (
 // mode write the versions the snapshot can see to the delta files before unlinking them. The data
 // shards, the delta files and the restored content are compared with Mvcc/Delta.v.
 // Cases are regenerated from their seed on replay.
+func rateOf(in *mvInput) int {
+	if in.Rate > 0 {
+		return in.Rate
+	}
+	return 10000
+}
+
 func runDelta(in *mvInput, r *rand.Rand, n int, sink *CaseSink) {
 	in.Delta = true
 	e := mvGenerate(r, in, n, false)
@@ -65,6 +74,7 @@ func runDelta(in *mvInput, r *rand.Rand, n int, sink *CaseSink) {
 	var hmu sync.Mutex
 	prevHook := nitro.VerifYieldHook
 	e.liveIter = true
+	var segment func(record bool)
 	nitro.VerifYieldHook = func(p int) {
 		if prevHook != nil {
 			prevHook(p)
@@ -72,6 +82,26 @@ func runDelta(in *mvInput, r *rand.Rand, n int, sink *CaseSink) {
 		if p != nitro.VerifPtStoreItem {
 			return
 		}
+		segment(true)
+	}
+	if in.Fine {
+		// the scan goroutine inside Iterator.Refresh, after it dropped its old session
+		busy := false
+		skiplist.VerifYieldHook = func(p int) {
+			if p != skiplist.VerifPtAcqLoaded || busy {
+				return
+			}
+			buf := make([]byte, 4096)
+			if !strings.Contains(string(buf[:runtime.Stack(buf, false)]), "nitro.(*Iterator).Refresh") {
+				return
+			}
+			busy = true
+			segment(false)
+			busy = false
+		}
+		defer func() { skiplist.VerifYieldHook = nil }()
+	}
+	segment = func(record bool) {
 		hmu.Lock()
 		defer hmu.Unlock()
 		if os.Getenv("VERIF_NOSEG") != "" {
@@ -118,8 +148,10 @@ func runDelta(in *mvInput, r *rand.Rand, n int, sink *CaseSink) {
 		if fmt.Sprint(e.physical()) != before {
 			changed++
 		}
-		segs = append(segs, cList(e.coqOps[a:]))
-		outs = append(outs, cList(e.coqObs[a:]))
+		if record {
+			segs = append(segs, cList(e.coqOps[a:]))
+			outs = append(outs, cList(e.coqObs[a:]))
+		}
 	}
 	serr := e.db.StoreToDisk(dir, snap, 1, nil)
 	nitro.VerifYieldHook = prevHook
@@ -151,7 +183,7 @@ func runDelta(in *mvInput, r *rand.Rand, n int, sink *CaseSink) {
 		}
 		delta = append(delta, readItems(p)...)
 	}
-	coq := fmt.Sprintf("CDelta %d %s %d %s %s [] %s %s %s %s", in.Cmp, preOps, sn, cZ(10000), cList(pivots), cList(segs), cList(shardItems), coqItems(delta), cList(outs))
+	coq := fmt.Sprintf("CDelta %d %s %d %s %s [] %s %s %s %s", in.Cmp, preOps, sn, cZ(int64(rateOf(in))), cList(pivots), cList(segs), cList(shardItems), coqItems(delta), cList(outs))
 	// oracle 1: data ∪ delta = the snapshot, data strictly increasing
 	key := e.ref.key
 	have := map[string]bool{}
@@ -201,7 +233,7 @@ func runDelta(in *mvInput, r *rand.Rand, n int, sink *CaseSink) {
 		e2.apply(mvOp{Op: "neww"})
 		snap2.Close()
 	}
-	rec := &mvInput{Mode: "delta", Cmp: in.Cmp, MM: in.MM, GenSeed: in.GenSeed, GenN: in.GenN}
+	rec := &mvInput{Mode: "delta", Cmp: in.Cmp, MM: in.MM, GenSeed: in.GenSeed, GenN: in.GenN, Rate: in.Rate, Fine: in.Fine}
 	idx := sink.Add(coq, rec, fmt.Sprintf("delta-cmp%d-mm%v", in.Cmp, in.MM), len(delta) >= 1 && changed >= 2 && len(want) >= 3)
 	if bad != "" {
 		sink.Fail(idx, bad, sig, rec)
